@@ -303,15 +303,50 @@ def strat_merged(tier):
   return s()
 
 
+def decode_merged(fdp):
+  n = fdp.ConsumeIntInRange(0, 60)
+  m = fdp.ConsumeIntInRange(1, 8)
+  cuts = sorted(fdp.ConsumeIntInRange(0, n) for _ in range(m - 1))
+  kinds = [('list', 'tuple', 'array', 'range')[fdp.ConsumeIntInRange(0, 3)] for _ in range(fdp.ConsumeIntInRange(1, 3))]
+  ra = (0, 1, 2, 3, 7, 64, 100)[fdp.ConsumeIntInRange(0, 6)]
+  indices, slices = [], []
+
+  def idx():
+    v = fdp.ConsumeIntInRange(0, 2 * n + 7)
+    return None if v == 2 * n + 7 else v - n - 3
+  while fdp.remaining_bytes() and len(indices) + len(slices) < 16:
+    if fdp.ConsumeBool():
+      i = idx()
+      indices.append(0 if i is None else i)
+    else:
+      slices.append([idx(), idx()])
+  return {'n': n, 'cuts': cuts, 'kinds': kinds, 'read_ahead': ra, 'indices': indices, 'slices': slices}
+
+
+def decode_offset_chain(fdp):
+  n = fdp.ConsumeIntInRange(0, 80)
+  chain = []
+  for _ in range(fdp.ConsumeIntInRange(1, 4)):
+    k = fdp.ConsumeIntInRange(1, 4)
+    chain.append([fdp.ConsumeIntInRange(0, k - 1), k, fdp.ConsumeIntInRange(0, 5)])
+  return {'kind': ('seq', 'multi', 'seq_array')[fdp.ConsumeIntInRange(0, 2)], 'n': n, 'chain': chain,
+          'splits': sorted(fdp.ConsumeIntInRange(0, n) for _ in range(fdp.ConsumeIntInRange(0, 3))),
+          'pickle': fdp.ConsumeBool(), 'consume': fdp.ConsumeIntInRange(0, 5)}
+
+
+_FUZZ_MODS = ('ml_metrics._src.utils.iter_utils', 'ml_metrics._src.chainables.io')
+
 SCENARIOS = [
     Scenario('shard_exhaustive', run_shard, enumerate=enum_shard, budget={'quick': 1, 'thorough': 1},
              shards={'quick': 6, 'thorough': 16}),
     Scenario('shard_hyp', run_shard, strategy=strat_shard, budget={'quick': 600, 'thorough': 8000},
              shards={'quick': 3, 'thorough': 16}),
     Scenario('offset_chain', run_offset_chain, strategy=strat_offset_chain, budget={'quick': 1500, 'thorough': 20000},
-             shards={'quick': 2, 'thorough': 16}),
+             shards={'quick': 2, 'thorough': 16}, decode=decode_offset_chain, fuzz_runs={'quick': 4000, 'thorough': 300000},
+             instrument=_FUZZ_MODS),
     Scenario('merged_exhaustive', run_merged, enumerate=enum_merged, budget={'quick': 1, 'thorough': 1},
              shards={'quick': 5, 'thorough': 16}),
     Scenario('merged_hyp', run_merged, strategy=strat_merged, budget={'quick': 1500, 'thorough': 20000},
-             shards={'quick': 2, 'thorough': 16}),
+             shards={'quick': 2, 'thorough': 16}, decode=decode_merged, fuzz_runs={'quick': 4000, 'thorough': 300000},
+             instrument=_FUZZ_MODS),
 ]
